@@ -46,7 +46,9 @@ def bm_monitor(meta, out):
 LONG_LD = X + "/" + "d" * 100 + "/" + "e" * 100 + "/" + "f" * 100 + "/ld4.so"     # a loader path longer than NAME_MAX (not than PATH_MAX)
 EXES = {X + "/elf3/vim": (True, LONG_LD), LONG_LD: (False, None), X + "/vim": (True, None), X + "/ed": (True, None), X + "/cat": (False, None), X + "/elf/vim": (True, X + "/ld.so"),
         X + "/ld.so": (False, None), X + "/elf/nano": (False, X + "/ld2.so"), X + "/ld2.so": (False, None),
-        X + "/elf2/ed": (True, X + "/ld3.so"), X + "/ld3.so": (False, None)}
+        X + "/elf2/ed": (True, X + "/ld3.so"), X + "/ld3.so": (False, None),
+        # an editor whose program header table is not where a fresh link puts it (e_phoff != 64)
+        X + "/reloc/vim": (True, X + "/ld5.so"), X + "/ld5.so": (False, None)}
 
 
 def gen_attr_case(rng):
@@ -59,6 +61,8 @@ def gen_attr_case(rng):
     s.put(X + "/ld3.so", "loader3")
     s.put(X + "/elf3/vim", wc.elf_image(LONG_LD))
     s.put(LONG_LD, "loader4")
+    s.put(X + "/reloc/vim", wc.elf_image_relocated(X + "/ld5.so", phnum=rng.choice([1, 2, 3, 5]), pad=rng.choice([0, 8, 40, 4000])))
+    s.put(X + "/ld5.so", "loader5")
     files = [WATCH + "/a.txt", WATCH + "/inc/i.txt", WATCH + "/.h/c.txt", WATCH + "/.x", WATCH + "/inc/secret", WATCH + "/n",
              WATCH + "/proj/m.c", WATCH + "/pp/p1/x.c"]   # inside a project root / below a project parent: still the default policy
     for f in files:
@@ -69,7 +73,7 @@ def gen_attr_case(rng):
         # directed: one process runs an editor, then a second editor binary with another loader, then that loader
         # (what a dynamically linked editor started from another editor does), then writes
         p = rng.choice(pids)
-        first, second = rng.sample([X + "/vim", X + "/elf/vim", X + "/elf2/ed", X + "/elf3/vim"], 2)
+        first, second = rng.sample([X + "/vim", X + "/elf/vim", X + "/elf2/ed", X + "/elf3/vim", X + "/reloc/vim"], 2)
         s.exec(p, first)
         s.exec(p, second)
         if EXES[second][1]:
